@@ -92,6 +92,27 @@ def check_circles(ctx, circle, n, rng, reps):
         if cls == 0:
             for nm, t in (("transpose", got.T), ("flipud", got[::-1]), ("fliplr", got[:, ::-1])):
                 ctx.check(bool(np.array_equal(got, t)), "circle:d4_symmetry", "centred mask not invariant under " + nm, wit)
+    # single-precision centres (a row of a float32 centroid array, numpy.float32 scalars) and a radius that passes a pixel centre
+    # at a relative distance of 1e-9: far outside rounding of the double arithmetic, so the exact indicator decides
+    for rep in range(max(2, reps // 2)):
+        origin = "middle" if rng.random() < 0.7 else "corner"
+        c32 = rng.uniform(-n / 4.0, n / 4.0, 2).astype(np.float32)
+        if origin == "corner":
+            c32 = (c32 + np.float32(n / 2.0)).astype(np.float32)
+        off = Fraction(n, 2) if origin == "middle" else Fraction(0)
+        i, j = int(rng.integers(0, n)), int(rng.integers(0, n))
+        d2 = (Fraction(2 * j + 1, 2) - off - Fraction(float(c32[0]))) ** 2 + (Fraction(2 * i + 1, 2) - off - Fraction(float(c32[1]))) ** 2
+        r = float(np.sqrt(float(d2))) * (1 + float(rng.choice([-1, 1])) * 1e-9)
+        form = int(rng.integers(0, 3))
+        c_arg = [c32, (c32[0], c32[1]), [np.float32(c32[0]), np.float32(c32[1])]][form]
+        wit = {"radius": r, "size": n, "centre": [float(c32[0]), float(c32[1])], "centre_type": ["float32 array", "tuple of float32", "list of float32"][form], "origin": origin}
+        got = circle(r, n, c_arg, origin)
+        want, nb = exact_circle(r, n, (float(c32[0]), float(c32[1])), origin)
+        ctx.case("circle_float32_centre", key=(r, n, float(c32[0]), float(c32[1]), origin), nontrivial=0 < got.sum() < n * n, sample=wit)
+        ctx.count("float32_centre_cases")
+        bad = np.argwhere(got != want)
+        ctx.check(len(bad) == 0, "circle:indicator:float32_centre:" + origin,
+                  "%d pixel(s) differ from the exact indicator for a single-precision centre, first at %s" % (len(bad), bad[:1].tolist()), wit)
     # generic floats (non-dyadic): skip pixels within 8 ulp of the boundary
     for rep in range(reps):
         origin = "middle" if rng.random() < 0.5 else "corner"
